@@ -18,7 +18,7 @@
    For the `jl` kind the model runs on the real bytes of the file: `lines`, `blank_line` and a
    strict parser for the one line shape the generator emits ({"id":N,"s":"alnum"}). *)
 From Coq Require Import List ZArith NArith Bool String.
-From IB Require Import Util.J IO.Shards IO.Jsonl.
+From IB Require Import Util.J IO.Shards IO.Jsonl IO.Exec.
 Import ListNotations.
 Open Scope Z_scope.
 
@@ -245,6 +245,64 @@ Definition gen_model (fmt n rg : Z) (per : N) (g : Z) : outcome (list Z) * outco
     (Ok (List.concat (map (pq_read groups) rs)),
      Ok (pq_read groups (0%N, match rev rs with r :: _ => snd r | [] => 0%N end))).
 
+(* ---------- execution configurations (kinds rx, g2, vo) ---------- *)
+(* engine class of the harness' configuration i (harness: engine_run) *)
+Definition engine_of (i : nat) : engine :=
+  match i with
+  | 0 => ESeq | 1 => EPar | 2 => ESeqCk | 3 => EParCk
+  | 4 => ESeq | 5 => ESeq | 6 => EParCk | _ => EPar
+  end%nat.
+(* the 18 runs of an rx case: the 8 configurations on the source, seq+ck / par+ck on source+filter,
+   then the four basic engines on the left-side join and on the right-side join *)
+Definition rx_plain : list engine := map engine_of (seq 0 8) ++ [ESeqCk; EParCk].
+(* row groups of a written Parquet file: rg = 0 is ironbeam's writer (default max row-group size) *)
+Definition pq_groups (ids : list Z) (rg : Z) : list (list Z) :=
+  let rgsz := if rg =? 0 then 1048576%N else Z.to_N rg in
+  map (slice ids) (ranges (nlen ids) rgsz).
+(* the source payload of a file that holds `ids0` when the source is built and `ids` when it is read *)
+Definition fmt_adapter (fmt : Z) (ids0 ids : list Z) (rg0 rg : Z) (per : N) : adapter Z :=
+  if fmt =? 0 then
+    let ls0 := lines (write_all tok_ser ids0) in
+    jsonl_adapter tok_de (lines (write_all tok_ser ids)) (build_shards ls0 per) (total_lines ls0)
+  else if fmt =? 1 then rows_adapter ids (ranges (nlen ids0) per) (nlen ids0)
+  else
+    let g0 := pq_groups ids0 rg0 in
+    pq_adapter (pq_groups ids rg) (group_ranges (nlen g0) per) (nlen ids0).
+(* the in-memory side of the rx joins: key k occurs k mod 3 times, k < n + 2 *)
+Definition rx_other (n : Z) : list Z := flat_map (fun k => repeat k (Z.to_nat (k mod 3))) (zrange (n + 2)).
+(* reference for the join result, written from the case description (not from join_keys) *)
+Definition rx_join_ref (n : Z) : list Z :=
+  flat_map (fun k => if k mod 3 =? 0 then [] else if k mod 3 =? 1 then [k] else [k; k]) (zrange n).
+
+(* a direct adapter call: ["ok", null] = None (Err), ["ok", x] = Some x, ["panic"] *)
+Definition dec_opt_call {A} (dec : J -> option A) (j : J) : option (outcome A) :=
+  match j with
+  | JL [t; JN] => if jtag_is "ok" t then Some Err else None
+  | JL [t; v] => if jtag_is "ok" t then match dec v with Some a => Some (Ok a) | None => None end else None
+  | JL [t] => if jtag_is "panic" t then Some Panic else None
+  | _ => None
+  end.
+Definition dec_parts (j : J) : option (list (list Z)) :=
+  match j with JL l => omap jints l | _ => None end.
+Fixpoint zparts_eqb (a b : list (list Z)) : bool :=
+  match a, b with
+  | [], [] => true
+  | x :: a', y :: b' => zlist_eqb x y && zparts_eqb a' b'
+  | _, _ => false
+  end.
+Definition hand_adapter (fmt : Z) (ids : list Z) (rg : Z) (rs : list range) (tot : N) : adapter Z :=
+  if fmt =? 0 then jsonl_adapter tok_de (lines (write_all tok_ser ids)) rs tot
+  else if fmt =? 1 then rows_adapter ids rs tot
+  else pq_adapter (pq_groups ids rg) rs tot.
+(* number of shardable units of a file: lines / rows / row groups *)
+Definition fmt_units (fmt : Z) (ids : list Z) (rg : Z) : N :=
+  if fmt =? 2 then nlen (pq_groups ids rg) else nlen ids.
+Definition pairwise_same (l : list (outcome (list Z))) : bool :=
+  match l with
+  | [] => true
+  | x :: r => forallb (same_or_both_fail zlist_eqb x) r
+  end.
+
 (* ---------- the check ---------- *)
 Definition all_true (l : list bool) : bool := forallb (fun b => b) l.
 
@@ -252,10 +310,11 @@ Definition check_main (kind : string) (input output : J) : verdict :=
   if String.eqb kind "jl" then
     match input, output with
     | JL [JL items; JI per; JI _; JI _],
-      JL [tag; JL [JI total; jranges; jwhole; jseq; jpar]] =>
+      JL [tag; JL [JI total; jranges; jwhole; jseq; jpar; jseqck; jparck]] =>
         match omap dec_item items, dec_ranges jranges,
-              dec_read dec_smalls jwhole, dec_read dec_smalls jseq, dec_read dec_smalls jpar with
-        | Some chunks, Some oranges, Some owhole, Some oseq, Some opar =>
+              dec_read dec_smalls jwhole, dec_read dec_smalls jseq, dec_read dec_smalls jpar,
+              dec_read dec_smalls jseqck, dec_read dec_smalls jparck with
+        | Some chunks, Some oranges, Some owhole, Some oseq, Some opar, Some oseqck, Some oparck =>
             let ls := lines (List.concat chunks) in
             let per := Z.to_N per in
             let agree :=
@@ -264,13 +323,17 @@ Definition check_main (kind : string) (input output : J) : verdict :=
               && ranges_eqb oranges (build_shards ls per)
               && outcome_eqb recs_eqb owhole (read_vec de_small ls)
               && outcome_eqb recs_eqb oseq (stream_seq de_small ls per)
-              && outcome_eqb recs_eqb opar (stream_par de_small ls per) in
+              && outcome_eqb recs_eqb opar (stream_par de_small ls per)
+              && outcome_eqb recs_eqb oseqck (exec_source ESeqCk (jsonl_source de_small ls per))
+              && outcome_eqb recs_eqb oparck (exec_source EParCk (jsonl_source de_small ls per)) in
             let prop :=
               tiles_ref oranges (Z.to_N total) per
               && same_or_both_fail recs_eqb oseq owhole
-              && same_or_both_fail recs_eqb opar owhole in
+              && same_or_both_fail recs_eqb opar owhole
+              && same_or_both_fail recs_eqb oseqck owhole
+              && same_or_both_fail recs_eqb oparck owhole in
             ok_verdict agree prop
-        | _, _, _, _, _ => malformed
+        | _, _, _, _, _, _, _ => malformed
         end
     | _, _ => malformed
     end
@@ -512,22 +575,23 @@ Definition check_main (kind : string) (input output : J) : verdict :=
        computed by arithmetic *)
     match input, output with
     | JL [JI fmt; JI n; JI rg; JI per; JI _; JI _],
-      JL [tag; JL [JI total; jranges; jw; js; jq]] =>
-        match dec_ranges jranges, dec_read dec_summary jw, dec_read dec_summary js, dec_read dec_summary jq with
-        | Some oranges, Some ow, Some os, Some oq =>
+      JL [tag; JL [JI total; jranges; jw; js; jq; jsc; jqc]] =>
+        match dec_ranges jranges, dec_read dec_summary jw,
+              omap (dec_read dec_summary) [js; jq; jsc; jqc] with
+        | Some oranges, Some ow, Some engs =>
             let per := Z.to_N per in
             let nn := Z.to_N n in
             let rgsz := if rg =? 0 then 1048576%N else Z.to_N rg in
             let units := if fmt =? 2 then (if n =? 0 then 0%N else div_ceil nn rgsz) else nn in
             let mranges := if fmt =? 2 then group_ranges units per else ranges units per in
             let want := Ok (summary_of_range n) in
-            let same := outcome_eqb zlist_eqb ow want && outcome_eqb zlist_eqb os want
-                        && outcome_eqb zlist_eqb oq want in
+            let same := outcome_eqb zlist_eqb ow want
+                        && forallb (fun o => outcome_eqb zlist_eqb o want) engs in
             ok_verdict (jtag_is "ok" tag && (total =? n) && ranges_eqb oranges mranges && same)
                        ((total =? n)
                         && tiles_ref oranges (match rev oranges with r :: _ => snd r | [] => 0%N end) per
                         && same)
-        | _, _, _, _ => malformed
+        | _, _, _ => malformed
         end
     | _, _ => malformed
     end
@@ -559,13 +623,132 @@ Definition check_main (kind : string) (input output : J) : verdict :=
         end
     | _, _ => malformed
     end
+  else if String.eqb kind "rx" then
+    (* [fmt; h; n; rg; per; pseed; t; p; pol; rec]: one source handle under every execution
+       configuration; the model runs the engine of each configuration on the format's adapter; the
+       property instance: every run returns the written ids (joins: the reference join) *)
+    match input, output with
+    | JL [JI fmt; JB _; JI n; JI rg; JI per; JI _; JI _; JI _; JI _; JB _],
+      JL [tag; JL [jwhole; JL jouts; JB pay]] =>
+        match dec_read jints jwhole, omap (dec_read jints) jouts with
+        | Some owhole, Some outs =>
+            let ids := zrange n in
+            let a := fmt_adapter fmt ids ids rg rg (Z.to_N per) in
+            let other := rx_other n in
+            let model :=
+              map (fun e => exec_source e a) rx_plain
+              ++ map (fun e => join_side_ids e a other) all_engines
+              ++ map (fun e => join_side_ids e a other) all_engines in
+            let eq_all (xs ys : list (outcome (list Z))) :=
+              (List.length xs =? List.length ys)%nat
+              && forallb (fun xy => outcome_eqb zlist_eqb (fst xy) (snd xy)) (combine xs ys) in
+            let reference :=
+              repeat (Ok ids) (List.length rx_plain) ++ repeat (Ok (rx_join_ref n)) 8 in
+            ok_verdict (jtag_is "ok" tag && pay && outcome_eqb zlist_eqb owhole (Ok ids) && eq_all outs model)
+                       (pay && outcome_eqb zlist_eqb owhole (Ok ids) && eq_all outs reference)
+        | _, _ => malformed
+        end
+    | _, _ => malformed
+    end
+  else if String.eqb kind "g2" then
+    (* [fmt; h; n1; n2; rg1; rg2; per; order; t; p; ps1; ps2]: the handle is built over generation 0
+       (ids 0..n1-1, row-group size rg1); generation 1 holds ids 1000..1000+n2-1 (rg2). Model: the
+       build-time ranges / total applied to the current content, per engine. Property instance:
+       generation 0 = whole on all four engines; in generation 1 the four engines agree with each
+       other (same records or all fail), equal the whole read when the number of lines / rows /
+       row groups is unchanged, and for JSONL / CSV equal the first n1 records of the new file *)
+    match input, output with
+    | JL [JI fmt; JB _; JI n1; JI n2; JI rg1; JI rg2; JI per; JI _; JI _; JI _; JI _; JI _], JL [tag; JL [g0; g1]] =>
+        let ids0 := zrange n1 in
+        let ids1 := map (fun k => 1000 + k) (zrange n2) in
+        let judge (ids : list Z) (rg : Z) (first : bool) (j : J) : option (bool * bool) :=
+          match j with
+          | JL [jw; JL jouts; JB pay] =>
+              match dec_read jints jw, omap (dec_read jints) jouts with
+              | Some ow, Some outs =>
+                  let a := fmt_adapter fmt ids0 ids rg1 rg (Z.to_N per) in
+                  let model := map (fun e => exec_source e a) all_engines in
+                  let agree :=
+                    pay && outcome_eqb zlist_eqb ow (Ok ids)
+                    && (List.length outs =? 4)%nat
+                    && forallb (fun xy => outcome_eqb zlist_eqb (fst xy) (snd xy)) (combine outs model) in
+                  let same_units := (fmt_units fmt ids0 rg1 =? fmt_units fmt ids rg)%N in
+                  let prop :=
+                    pay && outcome_eqb zlist_eqb ow (Ok ids) && (List.length outs =? 4)%nat
+                    && pairwise_same outs
+                    && (if first || same_units
+                        then forallb (fun o => outcome_eqb zlist_eqb o (Ok ids)) outs else true)
+                    && (if fmt <? 2
+                        then forallb (fun o => outcome_eqb zlist_eqb o (Ok (firstn (Z.to_nat n1) ids))) outs
+                        else true) in
+                  Some (agree, prop)
+              | _, _ => None
+              end
+          | _ => None
+          end in
+        match judge ids0 rg1 true g0, judge ids1 rg2 false g1 with
+        | Some (a0, p0), Some (a1, p1) => ok_verdict (jtag_is "ok" tag && a0 && a1) (p0 && p1)
+        | _, _ => malformed
+        end
+    | _, _ => malformed
+    end
+  else if String.eqb kind "vo" then
+    (* [fmt; h; na; nb; rg; tot; ranges; pseed]: ONE adapter instance, hand-built shard structs with
+       the given ranges / total over file A (ids 0..na-1), file B (ids 1000..), file A again.
+       Property instance (reference): foreign payloads give None; the third round repeats the first
+       (the adapter keeps no state); whenever the ranges tile [0, tot) and tot is the number of
+       lines / rows / row groups of the file, split concatenates to the file and clone_any is the file *)
+    match input, output with
+    | JL [JI fmt; JB _; JI na; JI nb; JI rg; JI tot; jranges; JI _], JL [tag; JL [JL [r1; r2; r3]; JB allnone; JB pay]] =>
+        match dec_ranges jranges with
+        | Some rs =>
+            let tot := Z.to_N tot in
+            let idsA := zrange na in
+            let idsB := map (fun k => 1000 + k) (zrange nb) in
+            let dec_round (j : J) :=
+              match j with
+              | JL [jl; jsplit; jc] =>
+                  match dec_opt_call jint jl, dec_opt_call dec_parts jsplit, dec_opt_call jints jc with
+                  | Some l, Some sp, Some c => Some (l, sp, c)
+                  | _, _, _ => None
+                  end
+              | _ => None
+              end in
+            let agree_round (ids : list Z) (o : outcome Z * outcome (list (list Z)) * outcome (list Z)) :=
+              let '(l, sp, c) := o in
+              let a := hand_adapter fmt ids rg rs tot in
+              outcome_eqb Z.eqb l (match ad_len a with Some x => Ok (Z.of_N x) | None => Err end)
+              && outcome_eqb zparts_eqb sp (ad_split a)
+              && outcome_eqb zlist_eqb c (ad_clone a) in
+            let prop_round (ids : list Z) (o : outcome Z * outcome (list (list Z)) * outcome (list Z)) :=
+              let '(l, sp, c) := o in
+              outcome_eqb Z.eqb l (Ok (Z.of_N tot))
+              && (if chainb 0%N rs tot && (tot =? fmt_units fmt ids rg)%N
+                  then match sp with Ok parts => zlist_eqb (List.concat parts) ids | _ => false end
+                       && outcome_eqb zlist_eqb c (Ok ids)
+                  else true) in
+            let round_eqb (x y : outcome Z * outcome (list (list Z)) * outcome (list Z)) :=
+              let '(l1, s1, c1) := x in let '(l2, s2, c2) := y in
+              outcome_eqb Z.eqb l1 l2 && outcome_eqb zparts_eqb s1 s2 && outcome_eqb zlist_eqb c1 c2 in
+            match dec_round r1, dec_round r2, dec_round r3 with
+            | Some o1, Some o2, Some o3 =>
+                ok_verdict (jtag_is "ok" tag && allnone && pay
+                            && agree_round idsA o1 && agree_round idsB o2 && agree_round idsA o3)
+                           (allnone && pay && round_eqb o1 o3
+                            && prop_round idsA o1 && prop_round idsB o2 && prop_round idsA o3)
+            | _, _, _ => malformed
+            end
+        | None => malformed
+        end
+    | _, _ => malformed
+    end
   else malformed.
 
 (* a panic of the code under test (or an Err where the harness unwraps) in a place where the model
    has no failure at all is a disagreement and a failed property instance, not a malformed case *)
 Definition is_panic (o : J) : bool := match o with JL [t] => jtag_is "panic" t | _ => false end.
 Definition known_kind (k : string) : bool :=
-  existsb (String.eqb k) ["jl"; "js"; "jw"; "cw"; "cs"; "ps"; "gl"; "jf"; "jb"; "jz"; "cz"; "ow"; "big"; "gen"]%string.
+  existsb (String.eqb k) ["jl"; "js"; "jw"; "cw"; "cs"; "ps"; "gl"; "jf"; "jb"; "jz"; "cz"; "ow"; "big"; "gen"; "rx"; "g2"; "vo"]%string.
 Definition check_C09 (kind : string) (input output : J) : verdict :=
   let v := check_main kind input output in
   if v_malformed v && is_panic output && known_kind kind then ok_verdict false false else v.
